@@ -346,6 +346,7 @@ func init() {
 		if j.Tier == "thorough" {
 			g = thoroughGrammar()
 		}
+		g.TwoByte = j.p("twobyte", 0) == 1
 		inputs := g.texts()
 		vias := []string{"FromJSON", "json.Unmarshal"}
 		if j.Replay != nil && j.Replay.Aux != nil {
